@@ -443,9 +443,14 @@ pub fn make_case(rng: &mut Rng, proj: &Project, k: usize) -> Option<Case> {
                 if touched.contains(&keep) || proj.schema_paths.iter().any(|p| touched.contains(p)) {
                     continue;
                 }
+                // the rendered mutant must still be syntactically valid: this fault belongs to the check stage
+                let mutant_text = render_ts(&f.doc, None, Feat::plain());
+                if refparse::parse_ts(&mutant_text).is_err() {
+                    continue;
+                }
                 files.retain(|(p, _)| !proj.schema_paths.contains(p) || *p == keep);
                 if let Some(t) = files.iter_mut().find(|(p, _)| *p == keep) {
-                    t.1 = render_ts(&f.doc, None, Feat::plain());
+                    t.1 = mutant_text;
                 }
                 for p in &proj.schema_paths {
                     touched.insert(p.clone());
